@@ -233,3 +233,149 @@ def classify_accept(schema, root, doc):
     if root['k'] in ('list', 'map', 'nullable'):
         return 'toplevel_container_unvalidated'
     return None
+
+
+class CallerPermissions:
+    def __init__(self, perms):
+        self.permissions = list(perms)
+
+
+class AnnotJudge(Judge):
+    """C13: StoneAnnotMC vectors replayed through json_encode/json_decode with permissions/redaction."""
+
+    SENTINELS = ['se2cret2', 'se3cret3', '2147483646', '10000000000.0']
+
+    def __init__(self, params):
+        super().__init__(params)
+        self.ctxs = {}
+        from stone.backends.python_rsrc import stone_serializers as ss
+        from stone.backends.python_rsrc import stone_validators as bv
+        self.ss = ss
+        self.bv = bv
+
+    def setup(self, obj):
+        schema, roots = obj['schema'], obj['roots']
+        gen = Generated(render_schema(schema, roots, patched=obj.get('patched')))
+        nsa = gen.module('nsa')
+        omitted = {}
+        for n, d in schema.items():
+            for m in d.get('fields', []) + d.get('tags', []):
+                if m.get('omit'):
+                    omitted.setdefault(m['omit'], set()).add(m['n'])
+        self.ctxs[obj['cfg']] = {
+            'schema': schema, 'roots': roots, 'gen': gen, 'binder': Binder(schema, gen), 'omitted': omitted,
+            'patched': obj.get('patched'),
+            'validators': [getattr(nsa, 'probe%d' % i).arg_type for i in range(len(roots))]}
+
+    def finish(self):
+        for c in self.ctxs.values():
+            c['gen'].close()
+        self.ctxs = {}
+
+    def on_vec(self, tag, obj):
+        if tag != 'VEC':
+            return
+        obj = norm_abs(obj)
+        if obj['phase'] == 'schema':
+            self.setup(obj)
+            return
+        self.n += 1
+        c = self.ctxs[obj['cfg']]
+        root = c['roots'][obj['root'] - 1]
+        validator = c['validators'][obj['root'] - 1]
+        binder = c['binder']
+        ctx = {'vector': obj, 'schema': c['schema'], 'roots': c['roots'], 'patched': c['patched']}
+        ss, bv = self.ss, self.bv
+        perms = obj['perms'] if isinstance(obj['perms'], list) else []
+        try:
+            py = binder.to_py(root, obj['val'])
+        except bv.ValidationError as e:
+            self.violation(None, 'valid value refused by generated classes: %s' % e, ctx)
+            return
+        if obj['phase'] == 'sent':
+            self.judged += 1
+            if self.judged % 4999 == 1:
+                self.sample({'root': root, 'value': obj['val'], 'perms': perms, 'redact': obj['rd'],
+                             'expected_doc': obj['doc']})
+            try:
+                text = ss.json_encode(validator, py, caller_permissions=CallerPermissions(perms),
+                                      should_redact=obj['rd'])
+                out = ('ok', text)
+            except bv.ValidationError:
+                out = ('verr', None)
+            except Exception as e:
+                self.violation('exc_' + type(e).__name__, 'encoder raised %s: %s' % (type(e).__name__, e), ctx)
+                return
+            if obj['doc']['k'] == 'encerr':
+                self.count('must_refuse')
+                if out[0] != 'verr':
+                    self.violation(None, 'encoding for caller %s must be refused but produced %s' % (perms, out[1][:300]), ctx)
+                return
+            if out[0] != 'ok':
+                self.violation(None, 'encoding a valid value for caller %s was refused' % (perms,), ctx)
+                return
+            got = json.loads(text)
+            # (a) independent universal-negative checks on the produced text
+            for cls, names in c['omitted'].items():
+                if cls in perms:
+                    continue
+                hit = _keys_and_tags(got) & names
+                if hit:
+                    self.violation(None, 'member(s) %s omitted for %r leaked to caller %s: %s'
+                                   % (sorted(hit), cls, perms, text[:300]), ctx)
+            if obj['rd']:
+                self.count('redacted_encodings')
+                for s in self.SENTINELS:
+                    if s in text:
+                        self.violation(None, 'clear text %r of a redacted value appears in %s' % (s, text[:300]), ctx)
+            # (b) exact prediction of the model
+            expected = doc_to_json(obj['doc'])
+            if not json_strict_eq(got, expected):
+                self.violation(None, 'encoding for caller %s (redact=%s) differs from the documented one: %s vs %s'
+                               % (perms, obj['rd'], text[:300], json.dumps(expected)[:300]), ctx)
+        elif obj['phase'] == 'received':
+            self.judged += 1
+            perms2 = obj['perms2'] if isinstance(obj['perms2'], list) else []
+            jtxt = json.dumps(doc_to_json(obj['doc']))
+            try:
+                dec = ss.json_decode(validator, jtxt, caller_permissions=CallerPermissions(perms2), strict=True)
+                out = ('ok', dec)
+            except bv.ValidationError:
+                out = ('verr', None)
+            except Exception as e:
+                self.violation('exc_' + type(e).__name__, 'decoder raised %s: %s' % (type(e).__name__, e), ctx)
+                return
+            exp = obj['res']
+            if exp['k'] == 'unspec':
+                self.skip('unspecified')
+            elif exp['k'] == 'err':
+                self.count('must_reject')
+                if out[0] != 'verr':
+                    self.violation(None, 'caller %s supplied %s and strict decoding accepted it' % (perms2, jtxt[:300]), ctx)
+            else:
+                self.count('must_accept')
+                if out[0] != 'ok':
+                    self.violation(None, 'caller %s: valid document %s rejected' % (perms2, jtxt[:300]), ctx)
+                    return
+                try:
+                    proj = binder.from_py(root, out[1])
+                except Unprojectable as e:
+                    self.violation(None, 'decoded value not valid for the type: %s' % e, ctx)
+                    return
+                if proj != exp['v']:
+                    self.violation(None, 'caller %s: decoded value differs from the documented one for %s'
+                                   % (perms2, jtxt[:300]), ctx, proj)
+
+
+def _keys_and_tags(j):
+    out = set()
+    if isinstance(j, dict):
+        for k, v in j.items():
+            out.add(k)
+            if k == '.tag' and isinstance(v, str):
+                out.add(v)
+            out |= _keys_and_tags(v)
+    elif isinstance(j, list):
+        for v in j:
+            out |= _keys_and_tags(v)
+    return out
